@@ -96,6 +96,9 @@ namespace awkward {
     void
       end_list(LayoutBuilder* builder) override;
 
+    bool
+      active() override;
+
   private:
     void validate() const;
 
